@@ -1148,4 +1148,17 @@ func genC17Witness(w *bufio.Writer, _ *hx.Rng, _ string) {
 	c17Single([]byte("xabx"), c17Mask{re: []byte(`(a)(b)`), groups: []int{2, 1}}).emit(w)
 	c17Single([]byte("xabx"), c17Mask{re: []byte(`(a(b))`), groups: []int{1, 2}}).emit(w)
 	c17Single([]byte("secret"), c17Mask{re: []byte(`(secret)`), groups: []int{1}, cut: true}, c17Mask{re: []byte(`(z)`), groups: []int{1}}).emit(w)
+	// a listed path must cover its whole subtree even when another list goes deeper through it
+	ab := [][][]byte{{[]byte("a"), []byte("b")}}
+	a := [][][]byte{{[]byte("a")}}
+	ev := jt.O(jt.F("a", jt.O(jt.F("b", jt.S("k")), jt.F("c", jt.S("secret")))))
+	(&c17Case{metricOn: true, root: ev, masks: []c17Mask{
+		{re: []byte(`(secret)`), groups: []int{1}, fkind: 2, paths: a},
+		{re: []byte(`(z)`), groups: []int{1}, fkind: 2, paths: ab}}}).emit(w)
+	(&c17Case{metricOn: true, root: ev, masks: []c17Mask{
+		{re: []byte(`(secret)`), groups: []int{1}, fkind: 1, paths: a},
+		{re: []byte(`(z)`), groups: []int{1}, fkind: 2, paths: ab}}}).emit(w)
+	(&c17Case{metricOn: true, root: ev, gkind: 1, gpaths: a, masks: []c17Mask{
+		{re: []byte(`(secret)`), groups: []int{1}},
+		{re: []byte(`(z)`), groups: []int{1}, fkind: 2, paths: ab}}}).emit(w)
 }
